@@ -439,11 +439,11 @@ def rule_primitives(ctx):
     import struct
     from .. import absint
     rid = "R-PRIMITIVE"
-    ctx.rule(rid, "Bitstream::read_u64 and read_f16_as_f32 are evaluated from MIR with Bitstream::read_bits replaced by a scripted source "
+    ctx.rule(rid, "Bitstream::read_u64, read_u32 and read_f16_as_f32 are evaluated from MIR with Bitstream::read_bits replaced by a scripted source "
                   "that records the width of every read.  U64 (ISO/IEC 18181-1 U64()): selector u(2); 0 -> 0; 1 -> 1 + u(4); 2 -> 17 + "
                   "u(8); 3 -> u(12), then while u(1): 8 more bits at shift 12, 20, .. 52, and 4 bits at shift 60, after which it stops - "
                   "both the value and the sequence of read widths are compared for every selector and every number of continuation "
-                  "groups 0..7.  F16: 320 bit patterns (every exponent, five mantissas, both signs): the value equals IEEE 754 "
+                  "groups 0..7.  U32(d0, d1, d2, d3): u(2) selects a distribution, which is a constant or offset + u(n).  F16: 320 bit patterns (every exponent, five mantissas, both signs): the value equals IEEE 754 "
                   "binary16, NaN / infinity are an error, and exactly 16 bits are read")
     cr = ctx.prog.crate("jxl_bitstream")
     f64_ = [g for g in cr.fn_list if g.path.endswith("Bitstream::<'_>::read_u64") or g.path.endswith("Bitstream::read_u64")]
@@ -502,6 +502,49 @@ def rule_primitives(ctx):
         ctx.bad(rid, "read_u64|" + bad[0], "Bitstream::read_u64: " + bad[1], fn=f)
     else:
         ctx.ok(rid, "read_u64", "%d scripts: value and read widths equal U64()" % rows, nontrivial=True, fn=f)
+    # U32
+    f32_ = [x for x in cr.fn_list if x.path.endswith("::read_u32") and "Bitstream" in x.path and x.kind == "AssocFn"]
+    sp = cr.adts.get("jxl_bitstream::bitstream::U32Specifier")
+    rows32 = 0
+    if len(f32_) == 1 and sp and [v["name"] for v in sp["variants"]] == ["Constant", "BitsOffset"]:
+        fu = f32_[0]
+        ctx.seen(fu)
+        K = lambda x: absint.Enum("jxl_bitstream::bitstream::U32Specifier", 0, "Constant", [x])
+        B = lambda o, n: absint.Enum("jxl_bitstream::bitstream::U32Specifier", 1, "BitsOffset", [o, n])
+        dists = [[K(5), K(77), B(2, 4), B(18, 6)], [B(0, 1), B(1, 30), K(0), B(0xfffffff0, 8)]]
+        bad32 = None
+        for ds in dists:
+            for sel in range(4):
+                d = ds[sel]
+                script = [sel] + ([] if d.name == "Constant" else [(0x2aaaaaab >> 3) & ((1 << d.fields[1]) - 1)])
+                want_v = d.fields[0] if d.name == "Constant" else (d.fields[0] + script[1]) & 0xffffffff
+                want_w = [2] + ([] if d.name == "Constant" else [d.fields[1]])
+                log, it = [], iter(script + [0, 0])
+
+                def rb(args, log=log, it=it):
+                    log.append(args[1])
+                    return absint.Enum("core::result::Result", 0, "Ok", [next(it)])
+                ev = absint.Evaluator(ctx.prog)
+                ev.intercept = {"Bitstream::<'_>::read_bits": rb, "Bitstream::read_bits": rb}
+                try:
+                    r = ev.call_fn(fu, [absint.Ref(("ext", "bitstream"))] + ds)
+                except absint.Unsupported as e:
+                    bad32 = ("not-evaluable", str(e))
+                    break
+                rows32 += 1
+                got = r.fields[0] if isinstance(r, absint.Enum) and r.name == "Ok" else None
+                if got != want_v or log != want_w:
+                    bad32 = ("layout", "selector %d of %s: value %s with reads %s, the definition gives %d with reads %s" % (sel, ds, got, log, want_v, want_w))
+                    break
+            if bad32:
+                break
+        bad_any = bad_any or bool(bad32)
+        if bad32:
+            ctx.bad(rid, "read_u32|" + bad32[0], "Bitstream::read_u32: " + bad32[1], fn=fu)
+        else:
+            ctx.ok(rid, "read_u32", "8 selector / distribution pairs: u(2) selects; a constant, or offset + u(n) modulo 2^32", nontrivial=True, fn=fu)
+    else:
+        ctx.anchor_missing(rid, "Bitstream::read_u32 / U32Specifier::{Constant, BitsOffset}")
     # F16
     g = f16_[0]
     ctx.seen(g)
@@ -535,9 +578,9 @@ def rule_primitives(ctx):
         ctx.bad(rid, "read_f16_as_f32|" + bad[0], "Bitstream::read_f16_as_f32: " + bad[1], fn=g)
     else:
         ctx.ok(rid, "read_f16_as_f32", "%d bit patterns equal IEEE 754 binary16" % rows16, nontrivial=True, fn=g)
-    ctx.count(rid + ".rows", rows + rows16)
-    if rows + rows16 >= 14 + 320 or not bad_any:
-        ctx.floor(rid + ".rows", 14 + 320)
+    ctx.count(rid + ".rows", rows + rows16 + rows32)
+    if rows + rows16 + rows32 >= 14 + 320 + 8 or not bad_any:
+        ctx.floor(rid + ".rows", 14 + 320 + 8)
 
 
 def main(pid, tier, repo=None):
